@@ -564,3 +564,47 @@ _hdr("C01", """   CLOSED for Floating = float as well (FloatOkCap.v, ComposeFloa
      std::min<size_t> at the capping sites, regenerated from the source, does not narrow the prediction.""")
 _hdr("C02", """   CLOSED for Floating = float under the same size bound: C02_index_contract_float / C02_index_contract_std (no floating-point
      hypothesis, every query below the sentinel, every EpsilonRecursive).""")
+
+# ---- float closure for the dynamic container (ComposeDynN/ComposeDynGoodN/ComposeDyn32) and the multidimensional index
+# ---- without the residual hypothesis (MultiRange2/ComposeMulti2)
+_D32 = ("Fp", "IdxChain", "DynExec", "FloatOkAll", "FloatOkCap", "ComposeIdx", "ComposeBuild", "ComposeDyn", "ComposeDynGood", "ComposeFloat",
+        "ComposeFloat32", "ComposeDynN", "ComposeDynGoodN", "ComposeDyn32")
+_add("C05", [("C05_find_float", "@check", "C05_find_float"), ("C05_count_float", "@check", "C05_count_float"),
+             ("C05_lower_bound_float", "@check", "C05_lower_bound_float"), ("C05_find_std", "@check", "C05_find_std"),
+             ("C05_lower_bound_std", "@check", "C05_lower_bound_std"), ("C05_cap22_of_21", "@checki", "cap22_of_21")], imports=_D32)
+_add("C06", [("C06_range_float", "@check", "C06_range_float"), ("C06_iter_float", "@check", "C06_iter_float"),
+             ("C06_size_float", "@check", "C06_size_float"), ("C06_empty_float", "@check", "C06_empty_float"),
+             ("C06_iter_std", "@check", "C06_iter_std"), ("C06_range_std", "@check", "C06_range_std")], imports=_D32)
+_add("C15", [("C15_float", "@check", "C15_float"), ("C15_std", "@check", "C15_std")], imports=_D32)
+_M2 = ("Fp", "IdxChain", "ComposeIdx", "ComposeBuild", "ComposeFloat32", "ComposeMulti", "MultiRange2", "ComposeMulti2", "ComposeMulti2Ex")
+_add("C13", [("C13_end_to_end", "@check", "multi_index_end_to_end"), ("C13_inner_contract_std", "@check", "multi_inner_contract_std"),
+             ("C13_skip_below_sentinel", "@check", "skip_below_sentinel"), ("C13_top_code_reserved", "@check", "top_code_reserved"),
+             ("C13_top_not_stored", "@check", "top_not_stored")], imports=_M2)
+_add("C14", [("C14_contains_end_to_end", "@check", "multi_contains_end_to_end"), ("C14_top_code_reserved", "@check", "top_code_reserved")], imports=_M2)
+_hdr("C05", """   CLOSED for Floating = float (ComposeDyn32.v): C05_find_float / C05_count_float / C05_lower_bound_float: typed histories whose
+     level capacity stays within 2^22 - 1 - max(eps, eps_r + 1) (checkable: C05_cap22_of_21), NO floating-point hypothesis;
+     C05_find_std / C05_lower_bound_std: float or double in one statement.  (The earlier _idx/_typed forms assume float_ok_valid,
+     which is unsatisfiable for float slopes; they remain for double.)""")
+_hdr("C06", """   CLOSED for Floating = float under the same capacity bound: C06_range_float, C06_iter_float, C06_size_float, C06_empty_float;
+     C06_iter_std / C06_range_std for either Floating type.""")
+_hdr("C15", """   C15_float / C15_std: the invariants over the real index model for float slopes / either Floating type.""")
+_hdr("C13", """   END TO END (MultiRange2.v, ComposeMulti2.v): C13_end_to_end: from multi_build = Ok, with NO hypothesis on the inner index and NO
+     floating-point hypothesis (double: n <= 2^30; float: n within the 2^22 bounds): range(min,max) = the stored points inside the box,
+     with multiplicity, in code order, for every box whose min corner is not the all-ones point (no exclusion for 3 dimensions).  The
+     inner contract is only needed at the queries actually issued (encode of the min corner, BIGMIN values), all proved below the
+     sentinel (C13_skip_below_sentinel).  C13_top_code_reserved: for 2 and 4 dimensions the all-ones point's code IS the reserved
+     maximum; C13_top_not_stored: it can never be stored (outside the property's domain: coordinates must be < 2^(bits-1));
+     querying it reads past the segments (model: Err OutOfBounds; real code: heap-buffer-overflow under ASan) -- noted in DESIGN 9.4.""")
+_hdr("C14", """   END TO END: C14_contains_end_to_end: contains(p) answers, and is true iff p is stored, for every encodable p other than the
+     all-ones point in 2/4 dimensions (whose code is the reserved maximum, C14_top_code_reserved), no hypothesis on the inner index.""")
+
+# ---- Elias-Fano end to end (EfLevel/EfFloat/ComposeEf/ComposeEfFloat)
+_EFC = ("Fp", "MappedQueries", "IdxBlock", "FloatOkCap", "ComposeIdx", "ComposeBuild", "EfLevel", "EfFloat", "ComposeEf", "ComposeEfFloat", "ComposeEfExample")
+_add("C10", [("C10_ef_search_contract", "@check", "ef_search_contract"), ("C10_ef_contract_total", "@check", "ef_contract_total"),
+             ("C10_ef_search_contract_double", "@check", "ef_search_contract_double"), ("C10_ef_search_contract_float", "@check", "ef_search_contract_float"),
+             ("C10_ef_search_eq_search", "@check", "ef_search_eq_search")], imports=_EFC)
+_hdr("C10", """   END TO END (ComposeEf.v, ComposeEfFloat.v): C10_ef_contract_total: for every sorted unsigned data set the construction succeeds and
+     EVERY query below the sentinel gets 0 <= lo <= lb <= hi <= n, hi - lo <= 2eps+2, present keys strictly inside, for every low
+     width wl, with NO floating-point hypothesis (double: n + eps < 2^31, by reduction to the one-level search -- the two saturation
+     rules agree below the cap; float: n + eps <= 2^21 - 1, by a direct Flocq analysis of the three-rounding float product).
+     C10_*_tie / C10_far_*: search window, cap type and saturation limit regenerated from the source equal the model's.""")
